@@ -300,8 +300,10 @@ impl LogState {
                                     if let Some((_, loglock, _)) = info.as_mut() {
                                         loglock.unlock()?;
                                     }
-                                    let new_t = mydir.join(RedoPath::from_str(g.text())?);
-                                    let got = self.catlog(ps, matches, show_status, &new_t)?;
+                                    // Always the normalised name, whatever spelling the
+                                    // script used: `already` is keyed by it.
+                                    let new_t = RedoPath::from_str(&fixname)?;
+                                    let got = self.catlog(ps, matches, show_status, new_t)?;
                                     interrupted += got;
                                     lines_written += got;
                                     if let Some((_, loglock, _)) = info.as_mut() {
@@ -327,8 +329,10 @@ impl LogState {
                                 if let Some((_, loglock, _)) = info.as_mut() {
                                     loglock.unlock()?;
                                 }
-                                let new_t = mydir.join(RedoPath::from_str(g.text())?);
-                                let got = self.catlog(ps, matches, show_status, &new_t)?;
+                                // Always the normalised name, whatever spelling the
+                                // script used: `already` is keyed by it.
+                                let new_t = RedoPath::from_str(&fixname)?;
+                                let got = self.catlog(ps, matches, show_status, new_t)?;
                                 interrupted += got;
                                 lines_written += got;
                                 if let Some((_, loglock, _)) = info.as_mut() {
